@@ -155,3 +155,38 @@ func waitNotMode(s *State, mode int) {
 
 var _ = config.Parsed
 var _ = verifrt.Symbolic
+
+// vContainer: a well-behaved Container over a fixed list.
+type vContainer struct {
+	items []pub.Tangible
+}
+
+func (c *vContainer) Harvest(quantity uint, startingAt uint) ([]pub.Tangible, pub.Container, uint) {
+	n := uint(len(c.items))
+	if startingAt >= n {
+		return []pub.Tangible{}, nil, 0
+	}
+	end := startingAt + quantity
+	if end >= n || end < startingAt {
+		return append([]pub.Tangible{}, c.items[startingAt:]...), nil, 0
+	}
+	return append([]pub.Tangible{}, c.items[startingAt:end]...), c, end
+}
+
+func vItems(n, firstTag, lines int) []pub.Tangible {
+	out := make([]pub.Tangible, n)
+	for i := range out {
+		out[i] = &vItem{tag: firstTag + i, lines: lines}
+	}
+	return out
+}
+
+func countLines(s string) int {
+	n := 1
+	for i := 0; i < len(s); i++ {
+		if s[i] == '\n' {
+			n++
+		}
+	}
+	return n
+}
